@@ -52,7 +52,8 @@ Definition vh_pos (r : nat) (l : list N) : N :=
   fold_left (fun acc x => acc * 1048576 + x + 1)%N l (N.of_nat r + 1)%N.
 
 Definition set_valid (m : msg) (b : bool) : msg :=
-  mkMsg (m_ssid m) (m_proto m) (m_from m) (m_to m) (m_round m) (m_data m) (m_bcast m) (m_bv m) (m_fp m) b.
+  mkMsg (m_ssid m) (m_proto m) (m_from m) (m_to m) (m_round m) (m_data m) (m_bcast m) (m_bv m) (m_fp m) b
+        (m_panic m).
 
 Definition keep_valid (_ : hstate) (m : msg) : bool := m_valid m.
 
@@ -98,7 +99,7 @@ Section Sys.
 
   Definition msg_of_out (s : hstate) (o : outmsg) : msg :=
     mkMsg (h_ssid s) (h_proto s) (h_self s) (o_to o) (o_round o) true (o_bcast o) (o_bv o)
-          (fp (h_self s) (o_bcast o) (o_to o) (o_round o)) true.
+          (fp (h_self s) (o_bcast o) (o_to o) (o_round o)) true NoPanic.
 
   Definition addressees (s : hstate) (o : outmsg) : list party :=
     match o_to o with Some j => [j] | None => others s end.
